@@ -36,7 +36,7 @@ Lemma fsm_value_stack : forall fuel slen st ch rest st' s',
   fsm_value fuel slen st ch rest = Ok (st', s') ->
   st' = st \/ (exists t, st' = t :: st /\ (length st < MAX_RECURSE)%nat).
 Proof.
-  intros fuel slen st ch rest st' s' H. unfold fsm_value in H.
+  intros fuel slen st ch rest st' s' H. unfold fsm_value, fsm_value_g in H.
   repeat match type of H with
   | (if ?c then _ else _) = _ => destruct c
   end;
@@ -51,7 +51,7 @@ Lemma fsm_step_stack : forall fuel slen t st s st' s',
   fsm_step fuel slen t st s = Ok (st', s') ->
   (length st' <= MAX_RECURSE)%nat.
 Proof.
-  intros fuel slen t st s st' s' Hl H. unfold fsm_step in H.
+  intros fuel slen t st s st' s' Hl H. unfold fsm_step, fsm_step_g in H; fold fsm_value in H.
   destruct (advance_ns s) as [ch rest].
   destruct (ch =? 0); [discriminate|].
   cbn [length] in Hl.
